@@ -228,6 +228,15 @@ impl Range {
 
         let components = boxed_url_components.unwrap();
 
+        if URL::has_parent_directory_segment(&components.path) {
+            let error = Error {
+                status_code_reason_phrase: STATUS_CODE_REASON_PHRASE.n404_not_found,
+                message: "path contains parent directory segment".to_string()
+            };
+            eprintln!("{}", &error.message);
+            return Err(error);
+        }
+
         let file_path_part = components.path.replace(SYMBOL.slash, &FileExt::get_path_separator());
 
         let boxed_static_filepath = FileExt::get_static_filepath(&file_path_part);
